@@ -14,7 +14,7 @@ replay = make_replay('C09')
 FINISH = dict(
     rule='P/X: one obligation per path of the real word-building regions, per pure bit-level lemma, per element for the any-metal mask; '
          'B: (query, molecule) pairs, non-trivial = at least one mapping',
-    explanation='The per-atom / per-bond / per-closure regions of the two word builders are cut from the AST of the current isomorphism.py and '
+    explanation='F: no memoised value read by this property\'s observables survives an edit it depends on (one obligation per covered mutator x cached key); The per-atom / per-bond / per-closure regions of the two word builders are cut from the AST of the current isomorphism.py and '
                 'executed on proxies (all paths); their words equal the published layout; on layout words the mask test equals the documented '
                 'clauses; the test expressions of the de-cythonised .pyx equal that mask test. Together with C08 (__eq__ == clauses) this is '
                 'predicate equivalence per atom, bond and closure on the documented domain.',
